@@ -519,6 +519,7 @@ func checkV3AndParsers(c *fw.Ctx, t *versionTable) {
 			}
 		}
 		c.Expect(ok, rule, "v12: the creator list starts with the create event's sender", c.P.Pos(v3.Pos()), "", "no store of the create event's sender into the creator list was recognised")
+		checkCreatorDomain(c, rule, v3)
 	}
 	// integer-only parser: a plain json.Unmarshal into the int64 fields
 	if p := fnByShortName(c.P, t.cell("10", "parsePowerLevelsFunc")); p != nil {
@@ -578,4 +579,77 @@ func argsOfParam(c *fw.Ctx, p *ssa.Parameter) []ssa.Value {
 		scan(f)
 	}
 	return out
+}
+
+// checkCreatorDomain: the entries tested against the creator list are all entries of the
+// proposed users map: the tested name is the key of a pass over newPowerLevels.Users itself,
+// not an element of a list into which only some of the keys were copied.
+func checkCreatorDomain(c *fw.Ctx, rule string, v3 *ssa.Function) {
+	construct := "v12: every entry of the proposed users map is tested against the creators"
+	verdict, detail, pos := "undecided", "no membership test against the creator list was recognised", ""
+	for _, f := range fw.FamilyOf(v3) {
+		for _, call := range fw.CallsTo(f, false, func(n string) bool { return strings.HasPrefix(n, "slices.Contains") }) {
+			args := call.Common().Args
+			if len(args) != 2 || !strings.Contains(fw.Sig(args[0]), "AdditionalCreators") {
+				continue
+			}
+			names := []ssa.Value{args[1]}
+			if p, isP := fw.Unwrap(args[1]).(*ssa.Parameter); isP {
+				names = argsOfParam(c, p)
+			}
+			for _, x := range names {
+				s := fw.Sig(x)
+				switch {
+				case strings.HasPrefix(s, "next(range(*&param:newPowerLevels.Users))#"):
+					if verdict == "undecided" {
+						verdict, detail = "ok", ""
+					}
+				case strings.Contains(s, "["): // an element of a list
+					// how was the list filled?
+					filtered := ""
+					fw.DerivesFrom(x, fw.FlowSpec{IsSource: func(v ssa.Value) bool {
+						if ap, _ := fw.CallOf(v); ap != nil && fw.CalleeName(ap) == "builtin.append" {
+							if ok, why := loopOnly(ap.Block()); !ok {
+								filtered = why
+							} else if d, okD := fw.CondAt(nil, ap.Block()); okD {
+								// a join of several guarded paths has no single dominating condition:
+								// use the path condition (every term carries a non-loop literal)
+								every := len(d) > 0
+								why := ""
+								for _, term := range d {
+									has := false
+									for _, l := range term {
+										a := l.Atom
+										if strings.HasPrefix(a, "next(range(") || (strings.Contains(a, "phi(-1|") && strings.Contains(a, "< builtin.len(")) {
+											continue
+										}
+										has = true
+										why = l.String()
+									}
+									if !has {
+										every = false
+									}
+								}
+								if every {
+									filtered = why
+								}
+							}
+						}
+						return false
+					}, Through: fw.ThroughNames(map[string][]int{"builtin.append": {0, 1}})})
+					if filtered != "" {
+						verdict, detail, pos = "fail", "the names tested against the creators are taken from a list that only receives an entry when "+filtered+": a creator listed in an entry that is skipped is accepted", c.P.Pos(call.Pos())
+					}
+				}
+			}
+		}
+	}
+	switch verdict {
+	case "ok":
+		c.Ok(rule, construct, c.P.Pos(v3.Pos()), "")
+	case "fail":
+		c.Fail(rule, construct, pos, detail)
+	default:
+		c.Undecided(rule, construct, detail)
+	}
 }
